@@ -44,6 +44,9 @@ def run(ctx, bt):
     run_programs(ctx, bt, ctx.scale(90, 1500), check_program)
     from ..runs_run import run_steps_protocol
     run_steps_protocol(ctx, bt, ctx.scale(12, 300), FOOT_FIELDS, "run-steps[C02]")
+    from .. import whole_run as W
+    # complete backtests of program trees (flat and nested, shadow copies included) executed end to end by the model
+    W.whole_run_protocol(ctx, bt, ctx.scale(15, 300), "whole-run[C02]", footprint_fields=FOOT_FIELDS)
 
 
 def search(ctx, bt):
